@@ -17,6 +17,12 @@ from migen.fhdl.structure import _Operator, _Slice, _Assign, _Fragment
 # Print Constant -----------------------------------------------------------------------------------
 
 def _generate_constant(node):
+    # Signed Constant: signed literal (two's complement value).
+    if node.signed:
+        return "{bits}'sd{value}".format(
+            bits  = str(node.nbits),
+            value = node.value % 2**node.nbits,
+        ), True
     return "{sign}{bits}'d{value}".format(
         sign  = "" if node.value >= 0 else "-",
         bits  = str(node.nbits),
